@@ -91,7 +91,7 @@ def regenerate(modules: list[str] | None = None) -> dict:
 
 def gen_dependencies(prop: str) -> set[str]:
     """names of the generated modules in the import closure of Props/<prop>.lean"""
-    seen, todo, gens = set(), [f"TeaTasting.Props.{prop}"], set()
+    seen, todo, gens = set(), [f"TeaTasting.Props.{m}" for m in prop_modules(prop)], set()
     while todo:
         mod = todo.pop()
         if mod in seen:
@@ -124,9 +124,16 @@ def lake_build(targets: list[str]) -> tuple[bool, str]:
     return rc == 0, out
 
 
-def theorems_of(prop: str) -> list[tuple[str, int]]:
-    """(qualified name, line) of every theorem in Props/<prop>.lean."""
-    text = (LEAN / "TeaTasting" / "Props" / f"{prop}.lean").read_text().splitlines()
+def prop_modules(prop: str) -> list[str]:
+    """Props/<prop>.lean and its companion files Props/<prop><Suffix>.lean (same property, split for size or because
+    a companion needs Mathlib modules that cannot be imported together with the model prelude)."""
+    d = LEAN / "TeaTasting" / "Props"
+    return [prop] + sorted(p.stem for p in d.glob(f"{prop}[A-Z]*.lean"))
+
+
+def theorems_in(module: str) -> list[tuple[str, int]]:
+    """(qualified name, line) of every theorem in Props/<module>.lean."""
+    text = (LEAN / "TeaTasting" / "Props" / f"{module}.lean").read_text().splitlines()
     ns: list[str] = []
     out = []
     for i, line in enumerate(text, 1):
@@ -142,34 +149,44 @@ def theorems_of(prop: str) -> list[tuple[str, int]]:
     return out
 
 
+def theorems_of(prop: str) -> list[tuple[str, int]]:
+    """every theorem of the property: main file and companions"""
+    return [t for mod in prop_modules(prop) for t in theorems_in(mod)]
+
+
 def failing_theorems(prop: str, build_out: str) -> list[str]:
-    """Map `Props/<prop>.lean:<line>` error locations to the enclosing theorem."""
-    ths = theorems_of(prop)
+    """Map `Props/<module>.lean:<line>` error locations to the enclosing theorem."""
     bad = set()
-    for m in re.finditer(rf"error: (?:\S*/)?Props/{prop}\.lean:(\d+):", build_out):
-        line = int(m.group(1))
-        cur = None
-        for name, ln in ths:
-            if ln <= line:
-                cur = name
-        bad.add(cur or f"line {line}")
+    for mod in prop_modules(prop):
+        ths = theorems_in(mod)
+        for m in re.finditer(rf"error: (?:\S*/)?Props/{mod}\.lean:(\d+):", build_out):
+            line = int(m.group(1))
+            cur = None
+            for name, ln in ths:
+                if ln <= line:
+                    cur = name
+            bad.add(cur or f"{mod} line {line}")
     return sorted(bad)
 
 
 def audit(prop: str) -> dict:
-    """`#print axioms` of every theorem of the property, plus the forbidden-token scan."""
+    """`#print axioms` of every theorem of the property (one audit file per Props module), plus the forbidden-token
+    scan."""
     ths = [n for n, _ in theorems_of(prop)]
-    path = LEAN / "TeaTasting" / "Audit" / f"{prop}.lean"
-    text = f"import TeaTasting.Props.{prop}\n" + "".join(f"#print axioms {n}\n" for n in ths)
-    path.parent.mkdir(exist_ok=True)
-    if not path.exists() or path.read_text() != text:
-        path.write_text(text)
-    rc, out = run(["lake", "env", "lean", str(path.relative_to(LEAN))])
     axioms: dict[str, list[str]] = {}
-    for m in re.finditer(r"'([^']+)' depends on axioms: \[([^\]]*)\]", out.replace("\n", " ")):
-        axioms[m.group(1)] = [a.strip() for a in m.group(2).split(",") if a.strip()]
-    for m in re.finditer(r"'([^']+)' does not depend on any axioms", out):
-        axioms[m.group(1)] = []
+    rc = 0
+    for mod in prop_modules(prop):
+        path = LEAN / "TeaTasting" / "Audit" / f"{mod}.lean"
+        text = f"import TeaTasting.Props.{mod}\n" + "".join(f"#print axioms {n}\n" for n, _ in theorems_in(mod))
+        path.parent.mkdir(exist_ok=True)
+        if not path.exists() or path.read_text() != text:
+            path.write_text(text)
+        rc1, out = run(["lake", "env", "lean", str(path.relative_to(LEAN))])
+        rc = rc or rc1
+        for m in re.finditer(r"'([^']+)' depends on axioms: \[([^\]]*)\]", out.replace("\n", " ")):
+            axioms[m.group(1)] = [a.strip() for a in m.group(2).split(",") if a.strip()]
+        for m in re.finditer(r"'([^']+)' does not depend on any axioms", out):
+            axioms[m.group(1)] = []
     bad = {n: a for n, a in axioms.items() if not set(a) <= ALLOWED_AXIOMS}
     missing = [n for n in ths if n not in axioms]
     hits = []
@@ -289,7 +306,7 @@ class Check:
         """regenerate + build + audit; records obligations.  Returns True iff every theorem checks."""
         with Lock():
             self.tie = regenerate()
-            ok, out = lake_build([f"TeaTasting.Props.{self.prop}"] + (extra_targets or []))
+            ok, out = lake_build([f"TeaTasting.Props.{m}" for m in prop_modules(self.prop)] + (extra_targets or []))
             ths = [n for n, _ in theorems_of(self.prop)]
             if ok:
                 self.audit = audit(self.prop)
@@ -310,8 +327,10 @@ class Check:
                 "upstream_build_failure") else 0
             self.cov["theorems"] = ths
             self.cov["axioms"] = sorted({a for v in self.audit.get("axioms", {}).values() for a in v})
-            self.cov["checker_cmd"] = (f"cd lean && lake build TeaTasting.Props.{self.prop} && lake env lean "
-                                       f"TeaTasting/Audit/{self.prop}.lean   # kernel re-check + #print axioms")
+            mods = prop_modules(self.prop)
+            self.cov["checker_cmd"] = ("cd lean && lake build " + " ".join(f"TeaTasting.Props.{m}" for m in mods) + " && "
+                                       + " && ".join(f"lake env lean TeaTasting/Audit/{m}.lean" for m in mods)
+                                       + "   # kernel re-check + #print axioms")
             self.cov["tie"] = self.tie
             for f in failing:
                 self.broken.append(f"theorem {f}")
@@ -322,7 +341,10 @@ class Check:
                     self.broken.append(f"tie: the translator refused the current source of Gen.{mod} ({why}); the theorems "
                                        f"were re-checked against the snapshot model, not the code")
             if self.tier == "thorough" and ok:
-                rc, lc = run(["lake", "env", "leanchecker", f"TeaTasting.Props.{self.prop}"], timeout=3600)
+                rc, lc = 0, ""
+                for m in prop_modules(self.prop):   # one module at a time: companions need not be co-importable
+                    rc1, lc1 = run(["lake", "env", "leanchecker", f"TeaTasting.Props.{m}"], timeout=3600)
+                    rc, lc = rc or rc1, lc + lc1
                 self.cov["leanchecker"] = "ok" if rc == 0 else f"rc={rc}: {lc[-500:]}"
                 if rc != 0:
                     self.broken.append(f"leanchecker TeaTasting.Props.{self.prop}")
